@@ -4,7 +4,7 @@ import lib, uris
 from lib import enc, enc_s, dec, show
 
 PID = "C08"
-SHAPES = {"14": "c08_abs_exposes_dslash", "71": "c08_rel_cancels", "72": "c08_rel_exposes_colon", "73": "c08_rel_exposes_empty", "3": "c08_host_triplet_case"}
+SHAPES = {"14": "c08_abs_exposes_dslash", "71": "c08_rel_cancels", "74": "c08_rel_stale_dot", "75": "c08_rel_dot_eaten", "72": "c08_rel_exposes_colon", "73": "c08_rel_exposes_empty", "3": "c08_host_triplet_case"}
 BITS = [("scheme", 1), ("userInfo", 2), ("host", 4), ("path", 8), ("query", 16), ("fragment", 32)]
 
 def comp(o, name):
@@ -20,6 +20,8 @@ def pool(chk, mdl):
     texts = uris.small_texts(2 if q else 3, alphabet=uris.SEG_FULL, auths=(None, "//h", "//H%41%2f%7E"), schemes=(None, "S"), queries=(None,))
     texts += uris.small_texts(1, alphabet=["a", "..", "%2E"], auths=("//u%41%3a@[::A]:8", "//[vA.B]", "//1.2.3.4", "//%41:80"), schemes=(None, "hTTp"), queries=(None, "%7e%2f%6A"), frags=(None, "%5A%3f"))
     texts += uris.small_texts(3 if q else 4, alphabet=uris.SEG_SMALL, auths=(None,), schemes=(None,))
+    # relative references that start with an essential dot: "./b:c/../x", "./b:c/../../x", ...
+    texts += ["./b:c/" + "/".join(t) for n in range(1, 4 if q else 5) for t in __import__("itertools").product(["..", ".", "x", ""], repeat=n)]
     for f in sorted(glob.glob(os.path.join(lib.VERIF, "corpus", PID, "*.json"))):
         texts.insert(0, json.load(open(f))["uri"])
     seen = set(); out = []
@@ -113,8 +115,10 @@ def run(chk):
         mids = [x[3] for x in twice_suspects]
         msp = lib.run_lines(mdl, ["spec_canon " + x for x in lib.run_lines(mdl, ["spec_normal " + m for m in mids])])
         shp2 = lib.run_lines(mdl, ["shape_c08 %s %s %s" % (m, sp, x[4]) for m, sp, x in zip(mids, msp, twice_suspects)])
-        for (t, fl, o, t1, t2, i), sh in zip(twice_suspects, shp2):
-            name = SHAPES.get(sh)
+        # ... or the first normalization already left the specification in a listed shape (stale dot)
+        shp1 = lib.run_lines(mdl, ["shape_c08 %s %s %s" % (enc_s(x[0]), spec[x[0]], x[3]) for x in twice_suspects])
+        for (t, fl, o, t1, t2, i), sh, sh1 in zip(twice_suspects, shp2, shp1):
+            name = SHAPES.get(sh) or SHAPES.get(sh1)
             if name and fnd.covers(name, {"uri": t, "once": show(t1), "twice": show(t2)}): continue
             chk.violation("normalizing twice differs from normalizing once", {"request": reqs[i], "uri": t, "build": fl, "impl": o, "shape": name})
     if corr and not chk.violations:
